@@ -670,3 +670,160 @@ def return_leaves(f: FuncInfo, limit: int = 32) -> list[tuple[list[tuple[ast.exp
             split(new, [*conds, (ie.test, truth)])
     split(rv, [])
     return out
+
+
+# ------------------------------------------------------------------------------------------ `a[-k:]` with k possibly 0
+def _same(e: ast.expr, text: str) -> bool:
+    return ast.unparse(e) == text
+
+
+def _positivity_test(test: ast.expr, name: str) -> bool | None:
+    """True: the test holding proves `name > 0` (or != 0); False: the test *failing* proves it; None: says nothing."""
+    if _same(test, name):
+        return True
+    if isinstance(test, ast.UnaryOp) and isinstance(test.op, ast.Not):
+        r = _positivity_test(test.operand, name)
+        return None if r is None else not r
+    if isinstance(test, ast.BoolOp) and isinstance(test.op, ast.And):
+        return True if any(_positivity_test(v, name) is True for v in test.values) else None
+    if isinstance(test, ast.BoolOp) and isinstance(test.op, ast.Or):
+        return False if any(_positivity_test(v, name) is False for v in test.values) else None
+    if isinstance(test, ast.Compare) and len(test.ops) == 1:
+        a, op, b = test.left, test.ops[0], test.comparators[0]
+        if _same(b, name) and isinstance(a, ast.Constant):
+            flip = {ast.Lt: ast.Gt, ast.LtE: ast.GtE, ast.Gt: ast.Lt, ast.GtE: ast.LtE, ast.Eq: ast.Eq, ast.NotEq: ast.NotEq}
+            if type(op) not in flip:
+                return None
+            a, op, b = b, flip[type(op)](), a
+        if _same(a, name) and isinstance(b, ast.Constant) and isinstance(b.value, (int, float)) and not isinstance(b.value, bool):
+            c = b.value
+            if (isinstance(op, ast.Gt) and c >= 0) or (isinstance(op, ast.GtE) and c >= 1) or (isinstance(op, ast.NotEq) and c == 0):
+                return True
+            if (isinstance(op, ast.LtE) and c >= 0) or (isinstance(op, ast.Lt) and c >= 1) or (isinstance(op, ast.Eq) and c == 0):
+                return False
+    return None
+
+
+def _leaves(stmts: list[ast.stmt]) -> bool:
+    return bool(stmts) and isinstance(stmts[-1], (ast.Return, ast.Raise, ast.Continue, ast.Break))
+
+
+def negative_count_slices(fn: ast.AST) -> list[tuple[ast.Subscript, str, bool]]:
+    """Every `a[-k:]` with a non-literal count k in `fn`: (node, text of k, k proven non-zero by an enclosing / preceding guard).
+    For k == 0 the slice is the *whole* array, not the empty suffix - the idiom is equivalent to `a[len(a) - k:]` only for k > 0."""
+    out = []
+    for n in ast.walk(fn):
+        if not (isinstance(n, ast.Subscript) and isinstance(n.slice, ast.Slice) and n.slice.upper is None and n.slice.step is None):
+            continue
+        lo = n.slice.lower
+        if not (isinstance(lo, ast.UnaryOp) and isinstance(lo.op, ast.USub)) or isinstance(lo.operand, ast.Constant):
+            continue
+        k = lo.operand
+        proven = False
+        kt = ast.unparse(k)
+        if True:
+            cur: ast.AST = n
+            while cur is not fn and cur is not None and not proven:
+                par = getattr(cur, "_parent", None)
+                if isinstance(par, (ast.If, ast.While)):
+                    r = _positivity_test(par.test, kt)
+                    if (r is True and cur in par.body) or (r is False and cur in par.orelse):
+                        proven = True
+                if isinstance(par, ast.IfExp):
+                    r = _positivity_test(par.test, kt)
+                    if (r is True and cur is par.body) or (r is False and cur is par.orelse):
+                        proven = True
+                # guard clauses earlier in the same block: `if k <= 0: return`
+                for field_ in ("body", "orelse", "finalbody"):
+                    block = getattr(par, field_, None)
+                    if isinstance(block, list) and cur in block:
+                        for s_ in block[:block.index(cur)]:
+                            if isinstance(s_, ast.If):
+                                r = _positivity_test(s_.test, kt)
+                                if (r is False and _leaves(s_.body)) or (r is True and _leaves(s_.orelse)):
+                                    proven = True
+                cur = par
+        out.append((n, ast.unparse(k), proven))
+    return out
+
+
+# ------------------------------------------------------------------------------------------ path-sensitive forward substitution
+def path_forms(f: FuncInfo, g: CFG, e: ast.expr, at: Node, max_paths: int = 256) -> list[tuple[tuple[str, ...], ast.expr]]:
+    """`e` at CFG node `at`, once per acyclic normal path entry -> `at`, with the plain local assignments met on that path substituted
+    forward (so two re-assignments under one `if` stay correlated - unlike `expand_forms`, which takes the cross product of reaching
+    definitions).  Returns [(branch decisions on the path, expression over parameters / self / unassigned names)].
+    Raises AnalysisError when a path re-binds a name of `e` in a way that is not a plain assignment (loop target, augmented, unpacking)."""
+    params = set(f.params) | set(f.kwonly)
+    out: list[tuple[tuple[str, ...], ast.expr]] = []
+    normal = {"next", "true", "false", "loop", "exhaust", "enter", "body"}
+
+    class Sub(ast.NodeTransformer):
+        def __init__(self, env: dict[str, ast.expr]) -> None:
+            self.env = env
+
+        def visit_Name(self, node: ast.Name):  # noqa: N802
+            if isinstance(node.ctx, ast.Load) and node.id in self.env:
+                return copy_expr(self.env[node.id])
+            return node
+
+        def visit_ListComp(self, node):  # noqa: N802 - comprehension variables shadow
+            return self._comp(node)
+
+        visit_GeneratorExp = visit_SetComp = visit_DictComp = visit_ListComp  # noqa: N815
+
+        def _comp(self, node):
+            bound = {x.id for gen in node.generators for x in ast.walk(gen.target) if isinstance(x, ast.Name)}
+            inner = Sub({k: v for k, v in self.env.items() if k not in bound})
+            return inner.generic_visit(node)
+
+    def copy_expr(x: ast.expr) -> ast.expr:
+        return ast.parse(ast.unparse(x), mode="eval").body
+
+    def subst(x: ast.expr, env: dict[str, ast.expr]) -> ast.expr:
+        return Sub(env).visit(copy_expr(x))
+
+    def walk(n: Node, env: dict[str, ast.expr], seen: frozenset[int], decisions: tuple[str, ...]) -> None:
+        if len(out) >= max_paths:
+            raise AnalysisError(f"{f.qualname}: more than {max_paths} paths to the anchored statement")
+        if n is at:
+            out.append((decisions, subst(e, env)))
+            return
+        if n.idx in seen:
+            return
+        seen = seen | {n.idx}
+        env2 = env
+        a = n.ast
+        if n.kind == "stmt" and isinstance(a, (ast.Assign, ast.AnnAssign)) and getattr(a, "value", None) is not None:
+            tgts = a.targets if isinstance(a, ast.Assign) else [a.target]
+            env2 = dict(env)
+            val = subst(a.value, env)
+            for t in tgts:
+                if isinstance(t, ast.Name):
+                    env2[t.id] = val
+                else:
+                    for x in ast.walk(t):
+                        if isinstance(x, ast.Name) and isinstance(x.ctx, ast.Store):
+                            env2[x.id] = ast.Name(id=f"<{x.id}@L{getattr(a, 'lineno', 0)}>", ctx=ast.Load())
+        elif n.kind == "stmt" and isinstance(a, ast.AugAssign) and isinstance(a.target, ast.Name):
+            env2 = dict(env)
+            cur = env.get(a.target.id, ast.Name(id=a.target.id, ctx=ast.Load()))
+            env2[a.target.id] = ast.BinOp(left=copy_expr(cur), op=a.op, right=subst(a.value, env))
+        elif n.kind in ("for", "with") and a is not None:
+            tgt = getattr(a, "target", None)
+            names = [x.id for x in ast.walk(tgt) if isinstance(x, ast.Name)] if tgt is not None else []
+            for it in getattr(a, "items", []) or []:
+                if it.optional_vars is not None:
+                    names += [x.id for x in ast.walk(it.optional_vars) if isinstance(x, ast.Name)]
+            if names:
+                env2 = dict(env)
+                for nm in names:
+                    env2[nm] = ast.Name(id=f"<{nm}@L{getattr(a, 'lineno', 0)}>", ctx=ast.Load())
+        for t, lab in n.succ:
+            if lab not in normal and lab != "next":
+                continue
+            d = decisions + ((f"{ast.unparse(a)[:60]}={lab}",) if n.kind == "test" and a is not None else ())
+            walk(t, env2, seen, d)
+
+    walk(g.entry, {p: ast.Name(id=p, ctx=ast.Load()) for p in ()}, frozenset(), ())
+    _ = params
+    return out
